@@ -7,7 +7,7 @@ Every model family registers its handlers in its own `Driver/<Family>.lean`; thi
 open Lean
 
 def allHandlers : List (String × (Json → Except String String)) :=
-  Drv.Solver.handlers
+  Drv.Solver.handlers2
 
 def dispatch (kind : String) (j : Json) : Except String String :=
   match allHandlers.lookup kind with
